@@ -12,6 +12,7 @@ import (
 	"sort"
 	"strconv"
 	"strings"
+	"sync"
 	"time"
 )
 
@@ -108,6 +109,14 @@ func monitorsFor(prop string, s *Schedule) []Monitor {
 
 var monitorRegistry = map[string]func(s *Schedule) []Monitor{}
 
+var watchdogLimit = 240 * time.Second
+
+func init() {
+	if v := envInt("VERIF_WATCHDOG_S", 0); v > 0 {
+		watchdogLimit = time.Duration(v) * time.Second
+	}
+}
+
 // ---------------------------------------------------------------------------
 // worker
 // ---------------------------------------------------------------------------
@@ -123,12 +132,19 @@ func cmdWorker(args []string) int {
 	out := fs.String("out", "", "output directory")
 	verif := fs.String("verif", "/verif", "verif dir")
 	tier := fs.String("tier", "quick", "quick|thorough")
+	from := fs.Int64("from", -1, "first run index (a restart after a run that was abandoned by the watchdog)")
 	_ = fs.Parse(args)
 	tierName = *tier
 	runtime.GOMAXPROCS(2)
 	kf := loadKnown(*verif)
 	prof := profileFor(*prop)
-	f, err := os.Create(filepath.Join(*out, fmt.Sprintf("w%d.jsonl", *wi)))
+	mode := os.O_CREATE | os.O_WRONLY | os.O_TRUNC
+	if *from >= 0 {
+		mode = os.O_CREATE | os.O_WRONLY | os.O_APPEND
+	} else {
+		*from = int64(*wi)
+	}
+	f, err := os.OpenFile(filepath.Join(*out, fmt.Sprintf("w%d.jsonl", *wi)), mode, 0o644)
 	if err != nil {
 		fmt.Fprintln(os.Stderr, err)
 		return 2
@@ -141,21 +157,25 @@ func cmdWorker(args []string) int {
 	deadline := start.Add(time.Duration(*budget) * time.Second)
 	nviol := 0
 	var bestProbes int = -1
-	for run := uint64(*wi); int64(run) < *maxRuns; run += uint64(*wn) {
+	for run := uint64(*from); int64(run) < *maxRuns; run += uint64(*wn) {
 		if time.Now().After(deadline) {
 			break
 		}
 		s := GenSchedule(*prop, *seed, run, prof)
 		t0 := time.Now()
-		// watchdog: a run exceeding 60 s is an infrastructure problem, never a violation
+		// watchdog: a run that takes longer than four minutes (a hang, or a machine so loaded that nothing can be
+		// said) is abandoned: its schedule is kept, the worker exits with code 3 and the coordinator restarts it at the
+		// next run index. Never a violation.
 		done := make(chan struct{})
 		go func(run uint64) {
 			select {
 			case <-done:
-			case <-time.After(60 * time.Second):
-				fmt.Fprintf(os.Stderr, "WATCHDOG: run %d of %s exceeded 60s\n", run, *prop)
+			case <-time.After(watchdogLimit):
+				fmt.Fprintf(os.Stderr, "WATCHDOG: run %d of %s abandoned after %s\n", run, *prop, watchdogLimit)
 				_ = saveJSON(filepath.Join(*out, fmt.Sprintf("watchdog-%d-%d.json", *seed, run)), &ReplayFile{Schedule: *s, Note: "watchdog"})
-				os.Exit(2)
+				_ = bw.Flush()
+				_ = os.WriteFile(filepath.Join(*out, fmt.Sprintf("resume-w%d", *wi)), []byte(fmt.Sprint(run+uint64(*wn))), 0o644)
+				os.Exit(3)
 			}
 		}(run)
 		r, err := executeSchedule(s, *prop, kf, false)
@@ -410,27 +430,62 @@ func cmdCheck(args []string) int {
 	}
 
 	// ---- 2. seeded search
-	var cmds []*exec.Cmd
-	for i := 0; i < workers; i++ {
-		c := exec.Command(self, "worker", "-prop", *prop, "-tier", *tier, "-seed", fmt.Sprint(seed), "-w", fmt.Sprint(i), "-W", fmt.Sprint(workers),
-			"-budget", fmt.Sprint(tc.budgetS), "-runs", fmt.Sprint(tc.runs), "-out", outDir, "-verif", *verif)
-		c.Stderr = os.Stderr
-		if err := c.Start(); err != nil {
-			fmt.Fprintln(os.Stderr, err)
-			return 2
-		}
-		cmds = append(cmds, c)
-	}
 	infra := false
-	for _, c := range cmds {
-		if err := c.Wait(); err != nil {
-			infra = true
-			fmt.Fprintf(os.Stderr, "worker failed: %v\n", err)
-		}
+	abandoned := 0
+	var mu sync.Mutex
+	var wg sync.WaitGroup
+	searchStart := time.Now()
+	for i := 0; i < workers; i++ {
+		wg.Add(1)
+		go func(i int) {
+			defer wg.Done()
+			from := int64(-1)
+			for restarts := 0; ; restarts++ {
+				left := int(tc.budgetS) - int(time.Since(searchStart).Seconds())
+				if restarts > 0 && left < 1 {
+					return
+				}
+				if left < 1 {
+					left = 1
+				}
+				args := []string{"worker", "-prop", *prop, "-tier", *tier, "-seed", fmt.Sprint(seed), "-w", fmt.Sprint(i), "-W", fmt.Sprint(workers),
+					"-budget", fmt.Sprint(left), "-runs", fmt.Sprint(tc.runs), "-out", outDir, "-verif", *verif}
+				if from >= 0 {
+					args = append(args, "-from", fmt.Sprint(from))
+				}
+				c := exec.Command(self, args...)
+				c.Stderr = os.Stderr
+				err := c.Run()
+				if err == nil {
+					return
+				}
+				if ee, ok := err.(*exec.ExitError); ok && ee.ExitCode() == 3 && restarts < 20 {
+					// a run was abandoned by the watchdog: continue behind it
+					b, rerr := os.ReadFile(filepath.Join(outDir, fmt.Sprintf("resume-w%d", i)))
+					if n, perr := strconv.ParseInt(strings.TrimSpace(string(b)), 10, 64); rerr == nil && perr == nil {
+						mu.Lock()
+						abandoned++
+						mu.Unlock()
+						from = n
+						continue
+					}
+				}
+				mu.Lock()
+				infra = true
+				mu.Unlock()
+				fmt.Fprintf(os.Stderr, "worker failed: %v\n", err)
+				return
+			}
+		}(i)
+	}
+	wg.Wait()
+	if abandoned > 0 {
+		notes = append(notes, fmt.Sprintf("%d run(s) abandoned by the watchdog after %s (schedules kept as watchdog-*.json); they decide nothing", abandoned, watchdogLimit))
 	}
 
 	// ---- 3. aggregate
 	agg := newAgg()
+	agg.abandoned = abandoned
 	for i := 0; i < workers; i++ {
 		agg.readFile(filepath.Join(outDir, fmt.Sprintf("w%d.jsonl", i)))
 	}
@@ -534,6 +589,7 @@ type agg struct {
 	viols            []RunRecord
 	halted           int
 	foreign          int
+	abandoned        int
 	firstForeign     string
 	opsOK, opsFailed int
 	wallMs           int64
@@ -662,6 +718,7 @@ func (a *agg) evidence(prop, tier string, seed uint64, wall, searchWall float64,
 		"halted_runs":                 a.halted,
 		"other_property_observations": a.other,
 		"foreign_halts":               a.foreign,
+		"watchdog_abandoned_runs":     a.abandoned,
 		"violation_classes":           nclasses,
 		"profile":                     describeProfile(profileFor(prop)),
 		"components": map[string]any{
